@@ -54,7 +54,9 @@ where
     New::Output: PartialEq<Old::Output>,
 {
     if is_empty_range(&new_range) {
-        d.delete(old_range.start, old_range.len(), new_range.start)?;
+        if !is_empty_range(&old_range) {
+            d.delete(old_range.start, old_range.len(), new_range.start)?;
+        }
         d.finish()?;
         return Ok(());
     } else if is_empty_range(&old_range) {
